@@ -76,6 +76,8 @@ pub async fn compact_folder(
                 .proof(&[temp_event_log.tree().len() - 1])?;
 
             let diff = FolderDiff::new(Patch::new(records), checkpoint, None);
+            #[cfg(sos_verif)]
+            sos_core::verif::crash_point("compact.before-replace");
             event_log.replace_all_events(&diff).await?;
 
             Ok(())
@@ -111,6 +113,8 @@ pub async fn compact_folder(
                 None,
             );
 
+            #[cfg(sos_verif)]
+            sos_core::verif::crash_point("compact.before-replace");
             event_log.replace_all_events(&diff).await?;
 
             temp.close()?;
